@@ -399,6 +399,13 @@ def run(chk, repo, tier):
     from .common import Remap
     from . import c01
     c01.run_check(Remap(chk, {'C01-a': 'C02-k', 'C01-c': 'C02-k', 'C01-d': 'C02-k', 'C01-e': 'C02-k', 'C01-g': 'C02-k'}), repo, tier)
+    # the FFT propagator puts the same sum on the same samples: grid length round(1/alpha), centred transform (origin at
+    # floor(n/2) for odd and even lengths), result metadata
+    from . import c09 as _c09
+    from ..resilient import run_nested as _run_nested2
+    nd2 = list(chk.not_decided)
+    _run_nested2(_c09, Remap(chk, {'C09-e': 'C02-k', 'C09-h': 'C02-k', 'C09-g': 'C02-d', 'C09-f': 'C02-k'}), repo, tier)
+    chk.not_decided[:] = nd2
     chk.not_decided += ['absolute complex field values', 'placement errors applied symmetrically to both axes '
                         'that also preserve every extent identity']
     alpha_rule(chk, repo, 'C02-a')
